@@ -217,6 +217,20 @@ def run(ctx):
         fold = ctx.find_calls(f, r"Iterator>::fold|Iterator::fold")
         ok = len(fold) == 1 and "iter(self.segments)" in ctx.expr(f, fold[0][1]["args"][0]).replace("syn::punctuated::Punctuated::<T, P>::", "")
         ctx.ob("C19.P.arguments-of-every-segment", f.key, "segments.iter().fold(.., arguments walk)", ok, "%s" % [ctx.expr(f, t["args"][0])[:100] for _, t in fold])
+        # must-pass-through: the only return that may bypass the argument walk is the empty-path one
+        if fold:
+            avoid = {fold[0][0]}
+            reach = f.reachable(0, False, avoid=avoid)
+            bypass = []
+            for d0 in f.defs().get(0, []):
+                blk = d0[0]
+                if f.is_cleanup(blk) or blk not in reach or blk == fold[0][0]:
+                    continue
+                ds = ctx.pc_strs(f, blk)
+                if not (ds and all(ctx._sat(d, r"is_empty\(self\.segments\)=True") for d in ds)):
+                    bypass.append((blk, [sorted(d) for d in ds]))
+            ctx.ob("C19.P.no-return-bypasses-argument-walk", f.key, "returns that skip the segment-argument walk", not bypass,
+                   "a result is returned without walking the generic arguments of the segments under %s" % bypass)
         cl = ctx.closures_of(f)
         okc = any(ctx.find_calls(c, r"PathArguments as darling_core::usage::type_params::UsesTypeParams>::uses_type_params$") and ctx.find_calls(c, r"union_in_place$") for c in cl)
         ctx.ob("C19.P.arguments-of-every-segment", f.key, "closure: union_in_place(state, segment.arguments.walk())", okc, "fold closure")
